@@ -308,12 +308,19 @@ theorem fmod_left_type_regression :
     C++ scope chain, at its first assignment in it. -/
 theorem stmt_decl (params : List Var) (b : Block) : annotate params b = annotV [params] b := annotate_eq params b
 
-/-- **Statements agree.** For every function body of the core (`v = e`, `return e`, `if/elif/else`, `while`; expressions of the
-    operator core on 32-bit ints and bools) whose reads are all *visible* in the C++ block structure (`scopeOK`: a name read at some point
-    is a parameter or was first assigned in the same or an enclosing block, before — Python's function-level scoping never needed
-    beyond C++'s block scoping), and every terminating Python execution that stays InSubset and returns `r`: the C++ reading of the
-    emitted statements (declaration at the first assignment per `VarsCollector`, plain assignment afterwards, `{ … }` blocks
-    opening and closing scopes, emitted expression text parsed by the C++ grammar) returns `r` with the same fuel. -/
+/-- **Statements agree.** For every function body of the core (`v = e`, `return e`, `if/elif/else`, `while`,
+    `for v in range(begin, stop, step)`; expressions of the operator core on 32-bit ints and bools) that satisfies the static
+    condition `scopeOK` —
+    * every name read is *visible* in the C++ block structure (a parameter, or first assigned earlier in the same or an enclosing
+      block: Python's function-level scoping is never needed beyond C++'s block scoping),
+    * for a `for`: the loop variable is a fresh name, the body assigns neither the loop variable nor any name `stop` / `step` read
+      (the emitted `for (auto v = begin; v < stop; v += step)` re-evaluates them and keeps `v` across iterations), `stop` may follow
+      `v < ` unparenthesised (`tightArg`), the step is positive —
+    and every terminating Python execution (range evaluated once, loop variable rebound on each iteration) that stays InSubset and
+    returns `r`: the C++ reading of the emitted statements (declaration at the first assignment per `VarsCollector`, plain assignment
+    afterwards, `{ … }` and `for (…)` opening and closing scopes, emitted expression text parsed by the C++ grammar) returns `r` with
+    the same fuel. Each clause of the condition is necessary: `stmt_scope_counterexample`, `range_reevaluated_counterexample`,
+    `range_loopvar_counterexamples`. -/
 theorem stmt_agree (lits : Lits) (params : List Var) (args : Store) (b : Block) (fuel : Nat) (r : Int)
     (hargs : ∀ v, params.contains v = (args.get v).isSome)
     (hscope : scopeOK lits [params] b = true)
@@ -379,5 +386,92 @@ theorem stmt_scope_counterexample :
       ["if (a > 0) {", "int v = 1;", "} else {", "int v = 2;", "}", "return v;"] ∧
     cExec wHazLits 9 [[(1, 5)]] (annotate [1] wHazard) = .error .ub := by
   refine ⟨by decide, by decide, by decide, by decide⟩
+
+/-! ## `for … in range(…)`: the three ways the C-style loop is not Python's iteration -/
+
+/-- `(atom id text)`, `l op r` on ints -/
+def wAt (i : Nat) (c : Char) : Node := .atom i [c]
+def wBin (op : BOp) (l r : Node) : Node := .chain op.level .int l (.cons op false .int r .nil)
+
+/-- literals of the examples below: atoms 10, 11, 12 are `0`, `1`, `5` -/
+def wForLits : Lits := fun i => if i = 10 then some (.int 0) else if i = 11 then some (.int 1) else if i = 12 then some (.int 5) else none
+
+/-- `def f(n): t = 0;  for i in range(0, n, 1): t = t + i * i;  return t`   (n=1 t=2 i=3) -/
+def wFor : Block :=
+  .cons (.assign 2 ['t'] (wAt 10 '0'))
+  (.cons (.forRange 3 ['i'] (wAt 10 '0') (wAt 1 'n') (wAt 11 '1')
+      (.cons (.assign 2 ['t'] (wBin .add (wAt 2 't') (wBin .mul (wAt 3 'i') (wAt 3 'i')))) .nil))
+  (.cons (.ret (wAt 2 't')) .nil))
+
+/-- non-vacuity of `stmt_agree` on a for loop: in scope, emitted through flow/for/range.j2, 0+1+4+9 = 14 on both sides -/
+example :
+    scopeOK wForLits [[1]] wFor = true ∧
+    (emitLines (fun _ => ['i', 'n', 't']) (annotate [1] wFor)).map String.ofList =
+      ["int t = 0;", "for (auto i = 0; i < n; i += 1) {", "t = t + i * i;", "}", "return t;"] ∧
+    cExec wForLits 30 [[(1, 4)]] (annotate [1] wFor) = .ok (.returned 14) := by
+  refine ⟨by decide, by decide, ?_⟩
+  exact stmt_agree wForLits [1] [(1, 4)] wFor 30 14 (by intro v; by_cases h : v = 1 <;> simp [Store.get, h, eq_comm]) (by decide) (by decide)
+
+/-- `def f(n): t = 0;  for i in range(0, n, 1):  (if n < 5: n = n + 1);  t = t + 1;   return t` -/
+def wReeval : Block :=
+  .cons (.assign 2 ['t'] (wAt 10 '0'))
+  (.cons (.forRange 3 ['i'] (wAt 10 '0') (wAt 1 'n') (wAt 11 '1')
+      (.cons (.ifs (.one (wBin .lt (wAt 1 'n') (wAt 12 '5')) (.cons (.assign 1 ['n'] (wBin .add (wAt 1 'n') (wAt 11 '1'))) .nil)) false .nil)
+      (.cons (.assign 2 ['t'] (wBin .add (wAt 2 't') (wAt 11 '1'))) .nil)))
+  (.cons (.ret (wAt 2 't')) .nil))
+
+/-- **Known finding `range:args-reevaluated`, as a fact about the emitted form.** The body changes `n`, which `stop` reads: the
+    program is valid Python and iterates `range(0, 2, 1)` twice; the emitted loop tests `i < n` again on every iteration and
+    runs five times. `scopeOK` fails exactly on the clause "the body assigns nothing `stop` reads". -/
+theorem range_reevaluated_counterexample :
+    scopeOK wForLits [[1]] wReeval = false ∧
+    (emitLines (fun _ => ['i', 'n', 't']) (annotate [1] wReeval)).map String.ofList =
+      ["int t = 0;", "for (auto i = 0; i < n; i += 1) {", "if (n < 5) {", "n = n + 1;", "}", "t = t + 1;", "}", "return t;"] ∧
+    pyExec wForLits 30 [(1, 2)] wReeval = .ok (.returned 2) ∧
+    cExec wForLits 30 [[(1, 2)]] (annotate [1] wReeval) = .ok (.returned 5) := by
+  refine ⟨by decide, by decide, by decide, by decide⟩
+
+/-- `def f(n): i = 5;  for i in range(0, n, 1): t = i;   return i`  — the loop variable is an already declared name -/
+def wShadow : Block :=
+  .cons (.assign 3 ['i'] (wAt 12 '5'))
+  (.cons (.forRange 3 ['i'] (wAt 10 '0') (wAt 1 'n') (wAt 11 '1') (.cons (.assign 2 ['t'] (wAt 3 'i')) .nil))
+  (.cons (.ret (wAt 3 'i')) .nil))
+
+/-- `def f(n): t = 0;  for i in range(0, n, 1): i = i + 1; t = t + i;   return t`  — the body assigns the loop variable -/
+def wLoopVar : Block :=
+  .cons (.assign 2 ['t'] (wAt 10 '0'))
+  (.cons (.forRange 3 ['i'] (wAt 10 '0') (wAt 1 'n') (wAt 11 '1')
+      (.cons (.assign 3 ['i'] (wBin .add (wAt 3 'i') (wAt 11 '1'))) (.cons (.assign 2 ['t'] (wBin .add (wAt 2 't') (wAt 3 'i'))) .nil)))
+  (.cons (.ret (wAt 2 't')) .nil))
+
+/-- **The two loop-variable clauses are necessary** (findings `range:loopvar-shadowed`, `range:loopvar-assigned`): (1) `for i` over an
+    already declared `i`: Python rebinds the one function-level `i` (returns 2 for n = 3), the emitted `for (auto i = 0; …)` declares a
+    new `i` that shadows it and the outer one still holds 5; (2) the body assigns `i`: Python's next iteration takes the next value
+    of the range regardless (1+2+3+4 = 10 for n = 4), the emitted loop continues from what the body left (1+3 = 4). -/
+theorem range_loopvar_counterexamples :
+    (scopeOK wForLits [[1]] wShadow = false ∧
+      pyExec wForLits 30 [(1, 3)] wShadow = .ok (.returned 2) ∧ cExec wForLits 30 [[(1, 3)]] (annotate [1] wShadow) = .ok (.returned 5)) ∧
+    (scopeOK wForLits [[1]] wLoopVar = false ∧
+      (emitLines (fun _ => ['i', 'n', 't']) (annotate [1] wLoopVar)).map String.ofList =
+        ["int t = 0;", "for (auto i = 0; i < n; i += 1) {", "i = i + 1;", "t = t + i;", "}", "return t;"] ∧
+      pyExec wForLits 30 [(1, 4)] wLoopVar = .ok (.returned 10) ∧ cExec wForLits 30 [[(1, 4)]] (annotate [1] wLoopVar) = .ok (.returned 4)) := by
+  refine ⟨⟨by decide, by decide, by decide⟩, ⟨by decide, by decide, by decide, by decide⟩⟩
+
+/-! ## which operand a parenthesis decision looks at -/
+
+/-- **The guard of an operand is decided from that operand and its own operator** (`proc_binary_operation_expression`,
+    py2cpp.py:1486-1501: `operands[index + 1]` is guarded against `operators[index]`, the first operand against `operators[0]`):
+    in the fold over a chain, step `k` parenthesises the `k`-th right element iff `is_regrouped_operand(that element, the operator
+    in front of it)` — nothing of the neighbouring steps enters. (A shifted pairing — seeded mutation C01-7 zipped the operands with
+    the operators off by one — changes this equation's right-hand side, i.e. the emitted text the stream `emit` compares.) -/
+theorem paren_decision_uses_own_operand (prim : List RTok) (pty : Ty) (op : BOp) (dict : Bool) (ty : Ty) (e : Node) (rest : Rest)
+    (lv : Nat) (fty : Ty) (first : Node) :
+    emitRest prim pty (.cons op dict ty e rest) =
+      emitRest (renderBinary op dict pty ty prim (guardIf (isRegrouped e op.tok) (emitRaw e))) (pty.acc ty) rest ∧
+    emitRaw (.chain lv fty first (.cons op dict ty e rest)) =
+      emitRest (guardIf (isRegrouped first op.tok) (emitRaw first)) fty (.cons op dict ty e rest) := by
+  constructor
+  · simp only [emitRest]
+  · simp only [emitRaw, Rest.firstTok]
 
 end Tranp.C01
